@@ -14,3 +14,24 @@ def ether_xdp(programs_fd=99):
     return {"insns": list(e.opcodes), "var_fd": fd, "var_size": args[2],
             "off_counters": e.__dict__["counters"], "off_dropcounter": e.__dict__["dropcounter"],
             "programs_fd": programs_fd}
+
+
+class _FakeEC:
+    ethertype = 0x88A4
+
+    def get_fmmu_addr(self):
+        return 0x1000
+
+
+def fast_group(build_packet, devices=()):
+    """real FastSyncGroup whose SterilePacket is filled by `build_packet(packet)`;
+    returns the group, its instruction list and the map geometry"""
+    from ebpfcat.ebpfcat import FastSyncGroup, SterilePacket
+    with fsim.fake_maps() as created:
+        sg = FastSyncGroup(_FakeEC(), list(devices))
+        sg.packet = SterilePacket()
+        build_packet(sg.packet)
+        sg.assemble()
+    (fd, args), = created
+    return {"sg": sg, "insns": list(sg.opcodes), "var_fd": fd, "var_size": args[2],
+            "off_wkc_errors": sg.__dict__["wkc_errors"]}
